@@ -376,6 +376,25 @@ def regenerate():
     status = {}
     text, names = translate_ip()
     status["GenIP.v"] = {"changed": write_if_changed(os.path.join(GEN, "GenIP.v"), text), "definitions": len(names)}
+    # table generators: every harness/gen_*.py with generate() -> {"TabXxx.v": text}
+    import glob
+    import importlib
+    here = os.path.dirname(os.path.abspath(__file__))
+    if here not in sys.path:
+        sys.path.insert(0, here)
+    for path in sorted(glob.glob(os.path.join(here, "gen_*.py"))):
+        modname = os.path.basename(path)[:-3]
+        mod = importlib.import_module(modname)
+        try:
+            files = mod.generate()
+        except Unsupported:
+            raise
+        except Exception as e:
+            raise Unsupported("%s.generate() failed: %s: %s" % (modname, type(e).__name__, e))
+        for fn, text in files.items():
+            if not fn.startswith("Tab") or not fn.endswith(".v"):
+                raise Unsupported("%s: generated file name %s must be Tab*.v" % (modname, fn))
+            status[fn] = {"changed": write_if_changed(os.path.join(GEN, fn), text)}
     return status
 
 
